@@ -5,9 +5,9 @@ from pathlib import Path
 V = Path(__file__).resolve().parent.parent
 
 CLAIMED = {
- "C04": ("per-tree Coq instance theorems c04_generator_model_reproduces_shipped (vm_compute): the Gallina model of the generator applied to each of the 186 pinned definitions yields, for each of their versions (all 666 modules), exactly the shipped classes (names, field order, annotations, metadata, tags, defaults, flexibility, key, header); plus translation validation: the package equals the pinned canonical description (hand edits), the CURRENT generator re-run on the pinned definitions reproduces the package (generator changes), hand-written API-key pins and counts. Limitation: upstream JSON is not available offline; pinned/defs are reconstructions validated by regenerating all 1629 classes with the unmodified generator",
+ "C04": ("per-tree Coq instance theorems c04_generator_model_reproduces_shipped (vm_compute): the Gallina model of the generator applied to each of the 186 pinned definitions yields, for each of their versions (all 666 modules), exactly the shipped classes (names, field order, annotations, metadata, tags, defaults, flexibility, key, header); plus translation validation: the package equals the pinned canonical description incl. the generated entity types' bases and bounds (hand edits), the CURRENT generator re-run on the pinned definitions reproduces the package (generator changes), hand-written API-key pins and counts. Limitation: upstream JSON is not available offline; pinned/defs are reconstructions validated by regenerating all 1629 classes with the unmodified generator",
          "Coq instance theorems by vm_compute (generator model on pinned definitions) + translation validation of the real generator", "4 C04"),
- "C16": ("Coq theorems over the Gallina model of the generator, for every definition and version: the fields of the emitted top-level class are exactly the definition's fields valid at the version, in order, snake-cased, tagged iff the version is in taggedVersions; all classes carry version/flexibility/key/header rule; one class per structure (no self-nesting); c16_supported_definitions_are_well_formed / c16_supported_definitions_encode_to_spec: for every definition and version satisfying the boolean defn_ok, the plans read off the generated module are well formed, so its classes encode to the wire specification and decode back (defn_ok is evaluated on every generated module and agreed with def_wf on all of them); correspondence on seeded random definitions: real generator output = model, independent reading of the definition, generated index, and bytes kio encodes for instances of generated classes = model encoder over plans read off the definition (with wf_env checked per module). Partial: pydantic's JSON layer and the supported-subset conditions (keywords, zero-size array items, optional tagged structs) are inside the correspondence, not the theorems",
+ "C16": ("Coq theorems over the Gallina model of the generator, for every definition and version: the fields of the emitted top-level class are exactly the definition's fields valid at the version, in order, snake-cased, tagged iff the version is in taggedVersions; all classes carry version/flexibility/key/header rule; one class per structure (no self-nesting); c16_supported_definitions_are_well_formed / c16_supported_definitions_encode_to_spec: for every definition and version satisfying the boolean defn_ok, the plans read off the generated module are well formed, so its classes encode to the wire specification and decode back (defn_ok is evaluated on every generated module and agreed with def_wf on all of them); correspondence on seeded random definitions: real generator output = model, independent reading of the definition (incl. a systematic definition with builtin-colliding names on every kind of field), generated index, and bytes kio encodes for instances of generated classes = model encoder over plans read off the definition (with wf_env checked per module). Partial: pydantic's JSON layer and the supported-subset conditions (keywords, zero-size array items, optional tagged structs) are inside the correspondence, not the theorems",
          "machine-checked proof (Coq) over the generator model + translation-validation correspondence on random definitions", "4 C16"),
 
  "C12": ("Coq theorems (Types/PhantomProofs.v): constructor call = identity on members / TypeError otherwise; integer types nest by range for ALL integers; membership of a fixed-width type <-> the writer succeeds, and then the reader returns the value; f64, both duration types (read back as the value rounded half-even to whole ms) and the timestamp type are accepted by their writers and read back; instance theorem: translated interval bounds = documented bounds and subclass chains nest; correspondence on isinstance / constructor / writer / read-back over boundary values of every Python type",
@@ -25,9 +25,9 @@ CLAIMED = {
          "machine-checked proof (Coq) over all conforming encodings + wire-first correspondence", "4 C03"),
  "C05": ("Coq theorems c05_canonical_reencodes / c05_decoder_output_encodable / c05_idempotent: canonical encodings of every typed value decode and re-encode to the same bytes; whatever the decoder returns from any byte string is typed, hence accepted by the encoder (up to the 2^35-byte tagged-section limits, stated as sizes_ok), and decode-then-encode is idempotent; wire-first correspondence",
          "machine-checked proof (Coq) + wire-first correspondence", "4 C05"),
- "C07": ("Coq theorems c07_sequence (any finite sequence of messages of arbitrary classes followed by arbitrary bytes decodes back to back to the original values), c07_tail_irrelevant / c07_consumes_prefix for every reader program, c07_any_append_sink for every append-only sink (Section hypothesis write-appends, checked on the real sinks); correspondence through BytesIO, write-only sink, BufferedWriter, asyncio.StreamWriter, read(n)-only source, BufferedReader",
+ "C07": ("Coq theorems c07_sequence (any finite sequence of messages of arbitrary classes followed by arbitrary bytes decodes back to back to the original values), c07_tail_irrelevant / c07_consumes_prefix for every reader program, c07_any_append_sink for every append-only sink (Section hypothesis write-appends, checked on the real sinks); correspondence through BytesIO, write-only sink, BufferedWriter, asyncio.StreamWriter, read(n)-only source, BufferedReader; sequences of equal-but-distinct values (DST fold twins, signed zeros) against the reference encoder",
          "machine-checked proof (Coq) by induction over message lists + sink/source correspondence", "4 C07"),
- "C11": ("Coq theorems over unbounded Z/lists: fixed-width round trip, exact byte length/big-endian value, out-of-range raises; varint minimal length, <=5/<=10 bytes, round trip; zig-zag non-negativity for every integer and round trips; every field-level primitive codec round trip/totality/typed outputs/permitted errors; c11_public_reader_after_writer / c11_public_writers_raise_outside_domain: the same stated about the 58 public functions BY NAME over a table of 40 (writer, reader, domain) rows and 16 bounded writers with exact in-range predicates; correspondence of all 58 modelled public functions by name incl. exhaustive 8/16-bit and varint sweeps compared by CRC",
+ "C11": ("Coq theorems over unbounded Z/lists: fixed-width round trip, exact byte length/big-endian value, out-of-range raises; varint minimal length, <=5/<=10 bytes, round trip; zig-zag non-negativity for every integer and round trips; every field-level primitive codec round trip/totality/typed outputs/permitted errors; c11_public_reader_after_writer / c11_public_writers_raise_outside_domain: the same stated about the 58 public functions BY NAME over a table of 40 (writer, reader, domain) rows and 16 bounded writers with exact in-range predicates; correspondence of all 58 modelled public functions by name incl. exhaustive 8/16-bit and varint sweeps compared by CRC; every reader input also decided by an independent decoding of the Kafka primitives (all 65536 error codes, every negative-length shape)",
          "machine-checked proof (Coq) + exhaustive/boundary correspondence of public primitives", "4 C11"),
  "C17": ("Coq theorems c17_header_derived / c17_independent_decoder_recovers / c17_empty_rejected: the model of write_new_batch produces, for every non-empty record list, a batch whose fields at the format's byte offsets are the derived values, batch_length = len-12, CRC-32C over bytes 21..end, and an independent decoder recovers exactly the records; c17_own_reader_recovers (kio's own reader, as modelled, returns the derived batch for every well-formed new batch, with any trailing bytes); correspondence with kio.records.writers + independent Python decoder",
          "machine-checked proof (Coq) against an independent format parser + correspondence", "4 C17"),
